@@ -21,7 +21,7 @@ func init() {
 
 func C15(r *Run) *core.Report {
 	rep := core.NewReport("C15")
-	if !modelOK(r, rep, "C15.J0") {
+	if !modelOKFor(r, rep, "C15.J0", "cache") {
 		return rep
 	}
 	nGo := 0
